@@ -1,5 +1,7 @@
 //! Ledger world: a single simulated node with many clients (DESIGN section 3.1).
 
+pub mod determinism;
+pub mod fees;
 pub mod monitors;
 pub mod node;
 pub mod steps;
@@ -29,10 +31,35 @@ pub struct LCfg {
     pub scan_every: u32,
     /// stride of the stratified sweep sample (1 = every position)
     pub sweep_stride_target: u32,
+    /// costing parameter override for user transactions:
+    /// [execution unit price, finalization unit price, usd price, state storage price, archive storage price]
+    #[serde(default)]
+    pub costing: Option<Vec<String>>,
+    /// per-mille of user transactions on which the C06 fee probe is run
+    #[serde(default)]
+    pub fee_probe_permille: u32,
+}
+
+pub fn costing_of(cfg: &LCfg) -> Option<CostingParameters> {
+    let c = cfg.costing.as_ref()?;
+    let mut cp = CostingParameters::latest();
+    let d = |s: &String, dflt: Decimal| Decimal::try_from(s.as_str()).unwrap_or(dflt);
+    cp.execution_cost_unit_price = d(&c[0], cp.execution_cost_unit_price);
+    cp.finalization_cost_unit_price = d(&c[1], cp.finalization_cost_unit_price);
+    cp.usd_price = d(&c[2], cp.usd_price);
+    cp.state_storage_price = d(&c[3], cp.state_storage_price);
+    cp.archive_storage_price = d(&c[4], cp.archive_storage_price);
+    Some(cp)
 }
 
 pub struct LedgerCheck {
     pub id: &'static str,
+}
+
+pub const LEDGER_IDS: &[&str] = &["C02", "C03", "C04", "C05", "C06", "C11"];
+
+pub fn static_id(id: &str) -> Option<&'static str> {
+    LEDGER_IDS.iter().find(|x| **x == id).copied()
 }
 
 fn injected_error(e: &RuntimeError) -> bool {
@@ -86,7 +113,7 @@ pub fn opts_for(fault: &Fault, system: bool) -> ExecOpts {
     let mut o = ExecOpts::default();
     o.system_tx = system;
     match fault {
-        Fault::None | Fault::Sweep => {}
+        Fault::None | Fault::Sweep | Fault::FeeProbe => {}
         Fault::InjectAt(k) => o.inject_at = Some(*k),
         Fault::CostLimit(c) => o.cost_unit_limit = Some(*c),
         Fault::AbortOnRepay => o.abort_when_loan_repaid = true,
@@ -94,7 +121,7 @@ pub fn opts_for(fault: &Fault, system: bool) -> ExecOpts {
     o
 }
 
-fn tip_of(bp: u32) -> TipSpecifier {
+pub fn tip_of(bp: u32) -> TipSpecifier {
     if bp == 0 {
         TipSpecifier::None
     } else if bp % 100 == 0 && bp / 100 <= u16::MAX as u32 {
@@ -212,6 +239,78 @@ impl LedgerCheck {
         Ok(())
     }
 
+    fn fee_ctx(&self, step: &LStep, ctx: &RunCtx) -> fees::FeeCtx {
+        let payer_vault = account_vault(&ctx.node.db, ctx.view.parties[PAYER].account, XRD);
+        let actor_vault = ctx.view.parties.get(step.actor as usize).and_then(|p| account_vault(&ctx.node.db, p.account, XRD));
+        fees::FeeCtx {
+            dedicated_payer_vault: if matches!(step.fee, Fee::Payer { .. } | Fee::PayerContingent { .. }) { payer_vault } else { None },
+            contingent_only_vault: if matches!(step.fee, Fee::PayerContingent { .. }) { actor_vault } else { None },
+            free_credit: Decimal::ZERO,
+        }
+    }
+
+    fn exe_with_fee(&self, step: &LStep, fee: Fee, ctx: &mut RunCtx) -> Option<(ExecutableTransaction, LStep)> {
+        let mut s = step.clone();
+        s.fee = fee;
+        let Built::User(m) = build(&s, &ctx.view, &ctx.node) else { return None };
+        let nonce = ctx.node.next_nonce();
+        let actor = &ctx.view.parties[s.actor as usize];
+        let mut spec = TxSpec::new(m, nonce, btreeset![actor.proof.clone(), ctx.view.parties[PAYER].proof.clone()]);
+        spec.tip = tip_of(s.tip_bp);
+        spec.build(&ctx.node.validator).ok().map(|e| (e, s))
+    }
+
+    /// C06: learn the total cost T with a generous lock on the dedicated payer, then probe locks
+    /// of exactly T and T -/+ a few attos. Nothing is committed.
+    fn fee_probe(&self, cfg: &LCfg, step: &LStep, ctx: &mut RunCtx) -> Result<(), Fail> {
+        let mut opts = opts_for(&Fault::None, false);
+        opts.costing_parameters = costing_of(cfg);
+        let run = |fee: Fee, ctx: &mut RunCtx| -> Result<Option<(TransactionReceipt, LStep)>, Fail> {
+            let Some((exe, s)) = self.exe_with_fee(step, fee, ctx) else { return Ok(None) };
+            ctx.stats.evaluations += 1;
+            match ctx.node.execute(&exe, &opts) {
+                Ok(r) => Ok(Some((r, s))),
+                Err(p) => {
+                    if fees::is_fee_assertion(&p) {
+                        Err(("c06.executor_fee_assertion_fired".into(), format!("fee probe of step {:?} with lock {:?}, costing {:?}: {}", step, s.fee, cfg.costing, p)))
+                    } else {
+                        Err(("c11.engine_panicked".into(), format!("fee probe: {}", p)))
+                    }
+                }
+            }
+        };
+        let Some((r0, s0)) = run(Fee::Payer { amount: "4000".into() }, ctx)? else { return Ok(()) };
+        if !matches!(r0.result, TransactionResult::Commit(_)) {
+            return Ok(());
+        }
+        let fctx = self.fee_ctx(&s0, ctx);
+        let total = fees::c06_check(&ctx.node.db, &r0, &fctx)?;
+        ctx.stats.bump("probe.fee_probes");
+        let one = num_bigint::BigInt::from(10u64).pow(18);
+        for delta in [0i64, -1, 1, -1000, 1000, -1_000_000_000, 1_000_000_000] {
+            let t = &total + num_bigint::BigInt::from(delta);
+            if t < num_bigint::BigInt::from(0) {
+                continue;
+            }
+            let whole = &t / &one;
+            let frac = &t % &one;
+            let amount = format!("{}.{:0>18}", whole, frac.to_string());
+            let Some((r, s)) = run(Fee::Payer { amount: amount.clone() }, ctx)? else { continue };
+            match &r.result {
+                TransactionResult::Commit(_) => {
+                    let fctx = self.fee_ctx(&s, ctx);
+                    fees::c06_check(&ctx.node.db, &r, &fctx).map_err(|(m, d)| (m, format!("lock of {} (total cost {} attos, delta {}): {}", amount, total, delta, d)))?;
+                    ctx.stats.bump(if delta < 0 { "probe.commit_with_lock_below_reference_cost" } else { "probe.commit_with_lock_at_or_above_cost" });
+                }
+                TransactionResult::Reject(_) => {
+                    ctx.stats.bump(if delta < 0 { "probe.reject_with_lock_below_cost" } else { "probe.reject_with_lock_at_or_above_cost" });
+                }
+                TransactionResult::Abort(_) => {}
+            }
+        }
+        Ok(())
+    }
+
     /// Executes one step end to end. Returns Err((monitor, detail)) on a violation.
     fn do_step(&self, cfg: &LCfg, step: &LStep, ctx: &mut RunCtx, sweep_this: bool, tier: Tier) -> Result<(), Fail> {
         let built = build_any(step, &ctx.view, &ctx.node);
@@ -232,7 +331,11 @@ impl LedgerCheck {
             Built::User(m) => {
                 let nonce = ctx.node.next_nonce();
                 let actor = &ctx.view.parties[step.actor as usize];
-                let mut spec = TxSpec::new(m, nonce, btreeset![actor.proof.clone()]);
+                let mut proofs = btreeset![actor.proof.clone()];
+                if matches!(step.fee, Fee::Payer { .. } | Fee::PayerContingent { .. }) {
+                    proofs.insert(ctx.view.parties[PAYER].proof.clone());
+                }
+                let mut spec = TxSpec::new(m, nonce, proofs);
                 spec.tip = tip_of(step.tip_bp);
                 match spec.build(&ctx.node.validator) {
                     Ok(e) => (e, false),
@@ -246,12 +349,23 @@ impl LedgerCheck {
         if self.wants("c02") && sweep_this && !system {
             self.sweep(cfg, step, &exe, ctx, tier)?;
         }
-        let opts = opts_for(if system { &Fault::None } else { &step.fault }, system);
+        let mut opts = opts_for(if system { &Fault::None } else { &step.fault }, system);
+        if !system {
+            opts.costing_parameters = costing_of(cfg);
+        }
+        // the fresh-process re-run enables kernel tracing (stdout discarded): results must not change
+        opts.kernel_trace = std::env::var("VERIF_KERNEL_TRACE").is_ok();
+        if self.id == "C06" && step.fault == Fault::FeeProbe && !system {
+            self.fee_probe(cfg, step, ctx)?;
+        }
         ctx.stats.evaluations += 1;
         let receipt = match ctx.node.execute(&exe, &opts) {
             Ok(r) => r,
             Err(p) => {
                 ctx.stats.bump("note.engine_panicked");
+                if fees::is_fee_assertion(&p) {
+                    return Err(("c06.executor_fee_assertion_fired".into(), format!("step {:?} costing {:?}: {}", step, cfg.costing, p)));
+                }
                 return Err(("c11.engine_panicked".into(), format!("step {:?}: {}", step, p)));
             }
         };
@@ -280,6 +394,7 @@ impl LedgerCheck {
             ctx.stats.bump(match &step.fault {
                 Fault::None => "fault.none",
                 Fault::Sweep => "fault.sweep",
+                Fault::FeeProbe => "fault.fee_probe",
                 Fault::InjectAt(_) => {
                     if injection_fired(&receipt) {
                         "fault.inject_costing_error_fired"
@@ -299,6 +414,20 @@ impl LedgerCheck {
                 let allowed = self.fee_vaults(step, ctx);
                 c02_failure_changes_only_fees(&ctx.node.db, c, &allowed)?;
                 ctx.stats.bump("c02.natural_or_injected_failure_checked");
+            }
+            if self.id == "C06" && !system {
+                let fctx = self.fee_ctx(step, ctx);
+                fees::c06_check(&ctx.node.db, &receipt, &fctx)?;
+                ctx.stats.bump("c06.commits_checked");
+                if fctx.dedicated_payer_vault.is_some() {
+                    ctx.stats.bump("c06.dedicated_payer_commits");
+                }
+                if fctx.contingent_only_vault.is_some() && class == 2 {
+                    ctx.stats.bump("probe.contingent_lock_on_failed_tx");
+                }
+                if step.tip_bp > 0 {
+                    ctx.stats.bump("c06.tipped_commits");
+                }
             }
             let ud = prng::fnv64(&scrypto_encode(&c.state_updates).unwrap());
             ctx.stats.distinct.insert(prng::mix(ud, class));
@@ -362,6 +491,7 @@ impl World for LedgerCheck {
             "C03" => "After every commit (success or failure) the state updates are decoded against the pre-state: per resource, sum of vault balance changes == minted - burned (mint/burn events) == change of the recorded total supply (where tracked); per non-fungible id the vault membership change equals minted - burned. evaluations = engine executions; distinct = distinct (state-updates digest, outcome class).",
             "C04" => "Every scan_every commits and at run end: own full-store scan (supply == sum of vaults per resource, no negative balance, NF amount == |ids|, no id in two vaults) and the repository's ResourceDatabaseChecker + ResourceEventChecker + ResourceReconciler (replay of all events since genesis). evaluations = engine executions; distinct = distinct (state-updates digest, outcome class).",
             "C05" => "Every scan_every commits and at run end: the repository's KernelDatabaseChecker and SystemDatabaseChecker (with role-assignment, royalty and resource application checkers) over the whole store, plus an own ownership pass (every stored internal node owned exactly once, no global node owned, stored values reference only global nodes). evaluations = engine executions; distinct = distinct (state-updates digest, outcome class).",
+            "C06" => "Most fees are locked on a dedicated payer account (it does nothing else, so its vault change is exactly the payment), with 1-2 locks mixing contingent and non-contingent, amounts below/around/above the need, tips over the whole Percentage(u16) and BasisPoints(u32) ranges, and in half the runs overridden costing parameters (unit prices with 18 significant decimals, USD and storage prices). For every commit: paid == execution+finalization+tip+storage+royalties == proposer+validator set+burn+royalties, cost == units x price, tip within truncation bounds, proposer/validator shares (tips 100% proposer; network fees 25/25/50) within 2 attos, rewards vault delta, burn event, dedicated payer vault delta == reported payment (refund in full), contingent-only vault untouched on failure, cost units within limits. Fee probes: total cost T learned with a generous lock, then locks of exactly T and T -/+ {1, 1e3, 1e9} attos are executed (no commit): each must be a consistent commit or a reject; a panic of the executor's fee sanity assertions is the violation. Oracle arithmetic in BigInt attos. evaluations = engine executions; distinct = distinct (state-updates digest, outcome class).",
             "C11" => "Every execution runs under catch_unwind with a recording panic hook; a panic or a NativeRuntimeError::Trap is the violation. evaluations = engine executions; distinct = distinct (state-updates digest, outcome class).",
             _ => "",
         };
@@ -402,6 +532,7 @@ impl World for LedgerCheck {
         match self.id {
             "C02" => v.extend(["sweep.transactions", "sweep.commit_failure", "sweep.reject", "c02.natural_or_injected_failure_checked"]),
             "C04" => v.extend(["scan.c04_full_scans"]),
+            "C06" => v.extend(["c06.commits_checked", "c06.dedicated_payer_commits", "c06.tipped_commits", "probe.contingent_lock_on_failed_tx", "probe.fee_probes", "probe.reject_with_lock_below_cost", "probe.commit_with_lock_at_or_above_cost", "probe.commit_with_lock_below_reference_cost"]),
             "C05" => v.extend(["scan.c05_full_scans"]),
             _ => {}
         }
@@ -427,6 +558,29 @@ impl World for LedgerCheck {
             metadata: rng.range(0, 2) as u32,
             restarts: rng.range(0, 1) as u32,
             allow_freezable: !matches!(self.id, "C04" | "C05" | "C02") || rng.chance(1, 2),
+            payer_fees: self.id == "C06",
+        };
+        // C06: costing parameter swarm - protocol values, or prices with many significant decimals
+        let costing = if self.id == "C06" && rng.chance(1, 2) {
+            let price = |rng: &mut Rng, protocol: &str| -> String {
+                match rng.below(6) {
+                    0 => protocol.to_string(),
+                    1 => "0.000000000000000001".into(),
+                    2 => "0.000000000000000003".into(),
+                    3 => format!("0.0000000{}", rng.range(10_000_000_000, 99_999_999_999)),
+                    4 => format!("0.00000{}", rng.range(1_000_000_000_000, 9_999_999_999_999)),
+                    _ => format!("0.000000{}", rng.range(100_000_000_000, 999_999_999_999)),
+                }
+            };
+            Some(vec![
+                price(rng, "0.00000005"),
+                price(rng, "0.00000005"),
+                rng.pick(&["16.666666666666666666", "1", "0.333333333333333333", "123.456789012345678901"]).to_string(),
+                rng.pick(&["0.00009536743", "0.000000000000000007", "0.000123456789012345"]).to_string(),
+                rng.pick(&["0.00009536743", "0.000000000000000007", "0.000123456789012345"]).to_string(),
+            ])
+        } else {
+            None
         };
         LCfg {
             n_steps: rng.range(20, if tier == Tier::Quick { 100 } else { 200 }) as usize,
@@ -444,6 +598,8 @@ impl World for LedgerCheck {
                 _ => 0,
             },
             sweep_stride_target: 120,
+            costing,
+            fee_probe_permille: if self.id == "C06" { *rng.pick(&[50u32, 150]) } else { 0 },
         }
     }
 
@@ -460,16 +616,19 @@ impl World for LedgerCheck {
         let mut n = 0usize;
         loop {
             let step = steps.next(|rng| {
-                if n >= cfg.n_steps + N_PARTIES {
+                if n >= cfg.n_steps + N_PARTIES + 1 {
                     return None;
                 }
-                if n < N_PARTIES {
+                if n < N_PARTIES + 1 {
                     // every party starts funded
                     return Some(LStep { actor: n as u8, body: Body::Fund, fee: Fee::Faucet, fault: Fault::None, tip_bp: 0 });
                 }
                 let mut s = gen_step(rng, &ctx.view, &ctx.node, &cfg.weights, cfg.fault_permille);
                 if cfg.sweep_permille > 0 && rng.below(1000) < cfg.sweep_permille as u64 {
                     s.fault = Fault::Sweep;
+                }
+                if cfg.fee_probe_permille > 0 && rng.below(1000) < cfg.fee_probe_permille as u64 && !matches!(s.body, Body::Round { .. } | Body::Restart) {
+                    s.fault = Fault::FeeProbe;
                 }
                 Some(s)
             });
